@@ -1,6 +1,6 @@
 (* C07 — per-node qubit capacity is enforced exactly (Model V). *)
 From Coq Require Import List Bool Arith.
-From SQ Require Import Base.ListUtil Net.Model Net.Refusal Net.Capacity.
+From SQ Require Import Base.ListUtil Net.Model Net.Refusal Net.Capacity Net.CapacityHist.
 Import ListNotations.
 
 (* after ANY history of operations (failed ones included) on ANY network, every node holds at most its configured maximum *)
@@ -51,3 +51,34 @@ Theorem C07_merges_never_refused_for_capacity : forall s h1 h2 g k,
   snd (step s (OGate2 h1 h2 g)) = Err k -> k = KValue.
 Proof. exact gate2_refusals. Qed.
 Print Assumptions C07_merges_never_refused_for_capacity.
+
+(* history level, against the CONFIGURED maximum: the limit a node enforces never drifts ... *)
+Theorem C07_enforced_limit_is_the_configured_one_forever : forall caps ops i,
+  maxQ (nth_node (run (init_net caps) ops) i) = fst (nth i caps (0, 0)).
+Proof. exact configured_max_constant. Qed.
+Print Assumptions C07_enforced_limit_is_the_configured_one_forever.
+
+(* ... after ANY history a node holding exactly its configured maximum refuses creation (noQubitError, nothing changes) ... *)
+Theorem C07_full_node_refuses_creation : forall caps ops i,
+  i < length caps ->
+  length (virt (nth_node (run (init_net caps) ops) i)) = fst (nth i caps (0, 0)) ->
+  step (run (init_net caps) ops) (ONew i) = (run (init_net caps) ops, Err KNoQubit).
+Proof. exact full_node_refuses_creation. Qed.
+Print Assumptions C07_full_node_refuses_creation.
+
+(* ... and every hand-over towards it; the whole network, the sender's qubit included, is unchanged ... *)
+Theorem C07_full_node_refuses_receive : forall caps ops h t vi q,
+  t < length caps ->
+  find_handle (run (init_net caps) ops) h = Some (vi, q) ->
+  length (virt (nth_node (run (init_net caps) ops) t)) = fst (nth t caps (0, 0)) ->
+  step (run (init_net caps) ops) (OSend h t) = (run (init_net caps) ops, Err KNoQubit).
+Proof. exact full_node_refuses_receive. Qed.
+Print Assumptions C07_full_node_refuses_receive.
+
+(* ... while below the configured maximum creation is never refused for lack of qubit capacity (the limit is exact, not early) *)
+Theorem C07_below_max_never_refused_for_capacity : forall caps ops i,
+  i < length caps ->
+  length (virt (nth_node (run (init_net caps) ops) i)) < fst (nth i caps (0, 0)) ->
+  snd (step (run (init_net caps) ops) (ONew i)) <> Err KNoQubit.
+Proof. exact below_max_never_noqubit. Qed.
+Print Assumptions C07_below_max_never_refused_for_capacity.
